@@ -84,8 +84,22 @@ fn strings() -> Vec<String> {
             }
         }
     }
+    // characters a "normalising" conversion would treat specially (byte order mark, zero-width and other spaces, line ends,
+    // combining accent vs precomposed letter, case, the replacement character, the largest code point): up to 3 pieces
+    let special = ["\u{feff}", "\u{fffe}", "\u{200b}", " ", "\u{a0}", "\n", "\r\n", "\t", "e\u{301}", "A", "\u{fffd}", "\u{10ffff}", "a"];
+    for a in special {
+        out.push(a.to_string());
+        for b in special {
+            out.push(format!("{}{}", a, b));
+            for c in special {
+                out.push(format!("{}{}{}", a, b, c));
+            }
+        }
+    }
     out.push("x".repeat(1000));
     out.push("é\u{10348}".repeat(50_000));
+    out.sort();
+    out.dedup();
     out
 }
 
@@ -535,7 +549,7 @@ pub fn run(ctx: &Ctx) -> i32 {
     let coverage = json!({
         "evaluations": evals,
         "distinct_nontrivial": distinct,
-        "rule": "every value of u8/u16/i16 (and of u32/i32 in the thorough tier; quick: all values with <=2 non-zero bytes and 1-2 bit patterns), a 2e5 pattern alphabet of u64, all strings of <=4 pieces over {empty,a,é,U+10348,NUL} plus long ones, every Vec<u8|u16|u32> of length 0..5 (6) over a 5-value boundary alphabet plus lengths 255, 256, 257, 1000, 65535, 65536, 65537 and 1e6, each also rebuilt with spare capacity (larger allocation; re-filled after clear()); oracle = independent native-endian concatenation; vectors run in sub-processes (abort = observation), the small sweep is repeated under valgrind memcheck and under miri (which also checks allocation layouts on free); distinct = distinct values",
+        "rule": "every value of u8/u16/i16 (and of u32/i32 in the thorough tier; quick: all values with <=2 non-zero bytes and 1-2 bit patterns), a 2e5 pattern alphabet of u64, all strings of <=4 pieces over {empty,a,é,U+10348,NUL} and of <=3 pieces over 13 characters a normalising conversion would touch (U+FEFF, U+FFFE, zero-width and no-break spaces, line ends, tab, combining accent, upper case, U+FFFD, U+10FFFF) plus long ones, every Vec<u8|u16|u32> of length 0..5 (6) over a 5-value boundary alphabet plus lengths 255, 256, 257, 1000, 65535, 65536, 65537 and 1e6, each also rebuilt with spare capacity (larger allocation; re-filled after clear()); oracle = independent native-endian concatenation; vectors run in sub-processes (abort = observation), the small sweep is repeated under valgrind memcheck and under miri (which also checks allocation layouts on free); distinct = distinct values",
         "samples": [{"u16": "0xff00 -> [00, ff]"}, {"Vec<u16>": "[0x00ff, 0xff00, 0xffff]"}, {"Vec<u32>": "[]"}, {"String": "aé\u{10348}"}, {"sha_keys": "IndexMap<Vec<u32>,f64> in all 24 insertion orders"}],
         "exhaustive": false,
         "parts": parts,
